@@ -535,7 +535,12 @@ class H5DataV2(DataSet):
         # Avoid storing reference to self in transform closure below, as this hinders garbage collection
         dump_period, time_offset = self.dump_period, self.time_offset
         extract_time = LazyTransform('extract_time', lambda t, keep: t + 0.5 * dump_period + time_offset)
-        return LazyIndexer(self._timestamps, keep=self._time_keep, transforms=[extract_time])
+        time_keep = self._time_keep
+        # If there is a duplicate final dump, these lengths don't match -> ignore last dump in file
+        if len(time_keep) == len(self._timestamps) - 1:
+            time_keep = np.zeros(len(self._timestamps), dtype=bool)
+            time_keep[:len(self._time_keep)] = self._time_keep
+        return LazyIndexer(self._timestamps, keep=time_keep, transforms=[extract_time])
 
     def _vislike_indexer(self, dataset, extractor):
         """Lazy indexer for vis-like datasets (vis / weights / flags).
